@@ -4,11 +4,40 @@
 //!   essim replay <file>                    re-run one recorded violation
 //!   essim case <PROP> <batch> <run_seed>   run a single generated case in this process
 use simcore::driver::{self, Family};
+use std::alloc::{GlobalAlloc, Layout, System};
+use std::sync::atomic::Ordering;
+
+/// Seam S6: the allocator. Every request is forwarded to the system allocator; the largest
+/// single request is recorded so that an attacker-sized allocation is seen even when it
+/// happens to succeed (a failing one aborts the process, which the driver attributes to
+/// the case that was running).
+struct SimAlloc;
+unsafe impl GlobalAlloc for SimAlloc {
+    unsafe fn alloc(&self, l: Layout) -> *mut u8 {
+        simcore::c06::MAX_ALLOC_REQUEST.fetch_max(l.size(), Ordering::Relaxed);
+        System.alloc(l)
+    }
+    unsafe fn dealloc(&self, p: *mut u8, l: Layout) {
+        System.dealloc(p, l)
+    }
+    unsafe fn alloc_zeroed(&self, l: Layout) -> *mut u8 {
+        simcore::c06::MAX_ALLOC_REQUEST.fetch_max(l.size(), Ordering::Relaxed);
+        System.alloc_zeroed(l)
+    }
+    unsafe fn realloc(&self, p: *mut u8, l: Layout, new_size: usize) -> *mut u8 {
+        simcore::c06::MAX_ALLOC_REQUEST.fetch_max(new_size, Ordering::Relaxed);
+        System.realloc(p, l, new_size)
+    }
+}
+#[global_allocator]
+static ALLOC: SimAlloc = SimAlloc;
 
 fn family(prop: &str) -> Option<&'static Family> {
     match prop {
         "C01" | "C02" | "C03" | "C04" => Some(&simcore::props::FAMILY),
         "C05" | "C07" | "C10" | "C11" => Some(&simcore::vmprops::FAMILY),
+        "C20" => Some(&locksim::c20::FAMILY),
+        "C06" => Some(&simcore::c06::FAMILY),
         _ => None,
     }
 }
@@ -34,8 +63,12 @@ fn main() {
                 2
             }
         },
-        Some("worker") if args.len() >= 8 => {
+        Some("worker") if args.len() >= 9 => {
             let f = family(&args[2]).expect("family");
+            let resume = match (args.get(9), args.get(10)) {
+                (Some(b), Some(c)) => Some((b.clone(), c.parse().unwrap())),
+                _ => None,
+            };
             driver::worker(
                 f,
                 &args[2],
@@ -44,6 +77,8 @@ fn main() {
                 args[5].parse().unwrap(),
                 args[6].parse().unwrap(),
                 std::path::Path::new(&args[7]),
+                resume,
+                args[8].parse().unwrap(),
             );
             0
         }
@@ -62,6 +97,9 @@ fn main() {
         }
         Some("case") if args.len() >= 5 => {
             let f = family(&args[2]).expect("family");
+            if let Some(c) = args.get(5).and_then(|c| c.parse::<u64>().ok()) {
+                simcore::c06::CASE_INDEX.with(|x| x.set(c));
+            }
             let out = (f.run_case)(&args[2], &args[3], args[4].parse().unwrap());
             for (fi, _) in &out.findings {
                 println!("FINDING class={} {}", fi.class, fi.message);
